@@ -30,6 +30,7 @@ DRIVERS = {
     'C11': ('replayers.gridw', dict(prop='C11')),
     'C12': ('replayers.envw', dict(prop='C12')),
     'C19': ('replayers.tagsw', dict(prop='C19')),
+    'C17': ('replayers.collw', dict(prop='C17')),
     'C14': ('replayers.batchw', dict(prop='C14')),
     'C15': ('replayers.batchw', dict(prop='C15')),
     'C16': ('replayers.batchw', dict(prop='C16')),
